@@ -12,6 +12,7 @@ EXPLANATION = (
     'Float accumulation order is not decided.'
     ' Goal collection / status (only goal items are delivered with their score), the positional callbacks and the call-local rule cache are part of this check as well.'
     ' Third round: the Tree factories store what they are given and retrieve_tree takes label, symbol and head flag from the cached rule result, so the tree returned carries the head flags the score was computed with.'
+    ' Fourth round: the declared layout of the score buffers (rule of C02); the options are read once per call.'
 )
 TRUSTED = ['clang-14 front end', 'CPython ast', 'sa/pyx.py normaliser', 'rule table DESIGN.md C09']
 
